@@ -13,6 +13,8 @@ Used for: constant folding of module-level tables (consts.py), decision tables
 
 from __future__ import annotations
 
+import collections as _collections
+import collections.abc as _abc
 import ast
 import re as _re
 from collections.abc import Iterator as _Iterator
@@ -913,6 +915,8 @@ class Interp:
     def iterate(self, v, node):
         if isinstance(v, list | tuple | set | frozenset | dict | str | range):
             return list(v)
+        if isinstance(v, _abc.Mapping) or isinstance(v, _collections.deque):
+            return list(v)
         if isinstance(v, OrderedBag):
             return list(v.items)
         if isinstance(v, _Iterator):
@@ -1257,7 +1261,7 @@ class Interp:
         if name in ("set", "frozenset"):
             items = self.iterate(a0, node) if args else []
             try:
-                return set(items)
+                return frozenset(items) if name == "frozenset" else set(items)
             except TypeError:
                 return OrderedBag(items)
         if name == "tuple":
@@ -1267,7 +1271,7 @@ class Interp:
         if name == "dict":
             d = {}
             if args:
-                if isinstance(a0, dict):
+                if isinstance(a0, dict | _abc.Mapping):
                     d.update(a0)
                 else:
                     for k, v in self.iterate(a0, node):
@@ -1902,13 +1906,26 @@ class OrderedBag:
     order only as an artefact – consumers must not depend on it."""
 
     def __init__(self, items):
-        self.items = list(items)
+        self.items = []
+        for x in items:  # a set: equal concrete elements are one element (abstract ones are distinct unless identical)
+            if x not in self:
+                self.items.append(x)
 
     def __iter__(self):
         return iter(self.items)
 
+    def __len__(self):
+        return len(self.items)
+
     def __contains__(self, x):
-        return any(x is y or (not isinstance(x, Sym) and x == y) for y in self.items)
+        return any(x is y or (not isinstance(x, Sym) and not isinstance(y, Sym) and _safe_eq(x, y)) for y in self.items)
+
+
+def _safe_eq(a, b) -> bool:
+    try:
+        return bool(a == b)
+    except Exception:  # noqa: BLE001 - comparison of unrelated abstract values
+        return False
 
 
 class GenList(list):
